@@ -486,5 +486,8 @@ func (w witnessImporter) Import(path string) (*types.Package, error) {
 	if p, ok := w.c.loaded[path]; ok && p.Types != nil {
 		return p.Types, nil
 	}
+	if w.fallback == nil {
+		return nil, fmt.Errorf("package %s is not loaded", path)
+	}
 	return w.fallback.Import(path)
 }
